@@ -18,7 +18,7 @@ CORE_ASSUME = ["identifiers are compared only for equality/order (interned order
                "extra_audits_file argument of AuditGraph::build (registry suggestions) not modelled"]
 for p, mods, corr in (
     ("C01", ["Vet.Props.Resolve"], ["corr.wire", "corr.depgraph", "corr.mapper", "corr.requirements", "corr.auditgraph", "corr.search", "corr.resolve"]),
-    ("C02", ["Vet.Props.Resolve"], ["corr.wire", "corr.depgraph", "corr.mapper", "corr.requirements", "corr.auditgraph", "corr.search", "corr.resolve"]),
+    ("C02", ["Vet.Props.Resolve", "Vet.Props.C02Report"], ["corr.wire", "corr.depgraph", "corr.mapper", "corr.requirements", "corr.auditgraph", "corr.search", "corr.resolve"]),
     ("C03", ["Vet.Props.C03"], ["corr.wire", "corr.depgraph", "corr.mapper", "corr.requirements"]),
     ("C04", ["Vet.Props.C04", "Vet.Props.Build", "Vet.Props.C04Keep"], ["corr.wire", "corr.mapper", "corr.auditgraph", "corr.resolve", "corr.update"]),
     ("C06", ["Vet.Props.Build"], ["corr.wire", "corr.mapper", "corr.auditgraph"]),
